@@ -23,10 +23,12 @@ sliceThroughConcat, rechunkNoop, rechunkRechunk, rechunkThroughMap, rechunkThrou
 rechunkThroughTranspose, rechunkThroughExpandDims, rechunkIntoSrc, rechunkIntoRegion.  Sound but outside
 `optimize`:
 sliceIntoSrcKeep (a region is kept as `slice (src …)`), sliceSplitInts.
-NOT modelled (covered by the end-to-end search only): slice through `broadcast_to`, the generic
-`Blockwise._accept_slice` (no `BlockLocal` guard in the code), pushing integers through
-transpose / expand_dims / reductions directly (recognised via `sliceSplitInts`), rechunk through
-concatenate, rechunk∘slice composition, lowering (`_lower`) and blockwise fusion.
+Proved in the extension files (same check, same audit): slice through `broadcast_to`, rechunk through
+concatenate, rechunk∘slice composition (Props/C02Ext.lean; rules in Model/Rules2.lean) and
+blockwise fusion's block-id assignment (Props/C02Fusion.lean).
+NOT modelled (covered by the end-to-end search only): the generic `Blockwise._accept_slice` (no
+`BlockLocal` guard in the code), pushing integers through transpose / expand_dims / reductions
+directly (recognised via `sliceSplitInts`), lowering (`_lower`) other than the chunk-preserving cases.
 -/
 import DaskArrayModel.Lemmas.RulesSound
 namespace Dask.Props.C02
